@@ -5,6 +5,8 @@ import RactorModel.Lemmas.PgConcNotify
 import RactorModel.Lemmas.PgConcLin
 import RactorModel.Lemmas.PgConcLeak
 import RactorModel.Lemmas.PgConcHold
+import RactorModel.Lemmas.PgConcText
+import RactorModel.Lemmas.PgConcRead
 
 /-!
 # C11 — process groups reflect live membership and tell their monitors
@@ -776,6 +778,166 @@ example :
     get g.st.map (1, 0) = get je.1.map (1, 0) ∧ g.st.index = je.1.index ∧
     ([1, 2, 3, 4].all fun a => get g.st.rel a == get je.1.rel a) = true := by decide
 
+/-! ### Wave 2: the notification clause against the property text, readers as threads -/
+
+/-- **The notification clause, one region against the text** (`Lemmas/PgConcText.lean`; `monitoring` = "monitoring
+that group, its scope or all scopes", `changed` = the region changed whether `x` is a member of `k`; neither is
+read off `pg.rs`). For every state and every region of every thread, `new` = the records it appends:
+(a) every EFFECTIVE change `(k, x)` is covered by exactly one record, for that scope and group, of the right
+kind, naming `x`, addressed to exactly the actors monitoring `k`, its scope or all scopes in the state the
+region ran in; (b) every record is addressed to exactly those monitors — nobody else; (c) everything a record
+reports is true of the state after the region, and a record that is NOT effective is either a `Join` of
+actors that were all members already or a `Leave` of actors none of which was a member — the implementation
+reports these to the monitors too (see `ineffective_leave_is_notified`). -/
+theorem conc_notifications_per_text (g : Conc.G) (t : Conc.Tid) :
+    ∃ new, (Conc.step g t).changes = g.changes ++ new ∧
+      (∀ k x, Conc.changed g t k x → ∃ p, new = [p] ∧ (p.s, p.g) = k ∧ x ∈ p.actors ∧
+        (p.isJoin = true ↔ x ∈ membersOf (Conc.step g t).st k) ∧ ∀ m, m ∈ p.to ↔ Conc.monitoring g.st m k) ∧
+      (∀ p ∈ new, ∀ m, m ∈ p.to ↔ Conc.monitoring g.st m (p.s, p.g)) ∧
+      (∀ p ∈ new, Conc.PayloadOk (Conc.step g t).st p ∧ (Conc.effectiveRec g t p ∨ Conc.ineffectiveRec g p)) :=
+  Conc.text_step g t
+
+/-- **Delivered to every monitor of the instant of the change and to no one else, end to end.** For every
+thread set and every schedule, at rest: (1) every notification that was sent is the notification of a recorded
+change, received by an actor that was monitoring that group, its scope or all scopes at the instant `i` of the
+change's own region; (2) conversely every actor that was monitoring at that instant has been sent it.
+(Multiplicities: `conc_notifications_exactly_once`.) -/
+theorem conc_delivered_to_monitors_of_the_instant (ops : List Op) (calls : List Conc.Pc) (sched : List Conc.Tid)
+    (hfresh : ∀ pc ∈ calls, Conc.pcOwed pc = []) :
+    let g := Conc.run (g0 ops calls) sched
+    Conc.atRest g →
+    (∀ e ∈ g.sent, ∃ p ∈ g.changes, e = ⟨e.monitor, p.isJoin, p.s, p.g, p.actors⟩ ∧
+      ∃ i, i < sched.length ∧ Conc.monitoring (Conc.stAt (g0 ops calls) sched i) e.monitor (p.s, p.g)) ∧
+    (∀ p ∈ g.changes, ∃ i, i < sched.length ∧
+      ∀ m, Conc.monitoring (Conc.stAt (g0 ops calls) sched i) m (p.s, p.g) → ⟨m, p.isJoin, p.s, p.g, p.actors⟩ ∈ g.sent) := by
+  intro g hr
+  have hperm := (conc_notifications_exactly_once ops calls sched hfresh).2.2 hr
+  refine ⟨Conc.sent_only_to_monitors (g0 ops calls) sched rfl hperm, ?_⟩
+  intro p hp
+  rcases Conc.records_run (g0 ops calls) sched p hp with h | ⟨i, hi, h⟩
+  · cases h
+  · refine ⟨i, hi, fun m hm => ?_⟩
+    apply hperm.mem_iff.mpr
+    rw [List.mem_flatMap]
+    exact ⟨p, hp, List.mem_map.mpr ⟨m, (h m).mpr hm, rfl⟩⟩
+
+/-- **Decided against the text: an INEFFECTIVE leave is notified.** `leave_scoped` of actors none of which is a
+member, on a group whose entry exists (it has other members or a group monitor), makes a `Leave` record with the
+caller's list verbatim for every monitor of the group. The text's "every effective join or leave is delivered"
+does not ask for it; read as "monitors are told of effective changes only" it is a deviation (what is reported is
+still true: none of the named actors is a member afterwards, `conc_payload_sound`). -/
+theorem ineffective_leave_is_notified (st : State) (s g : Nat) (as : List Nat)
+    (he : (get st.map (s, g)).isSome) :
+    (leaveEntry st s g as).2 = some ⟨false, s, g, as, recipients st (s, g)⟩ := by
+  unfold leaveEntry
+  cases h : get st.map (s, g) with
+  | none => rw [h] at he; cases he
+  | some gs => rfl
+
+/-- witness: group (1,5) has member 1 and group monitor 9; thread 0 calls `leave_scoped(1, 5, [2])` — 2 is not a
+member: membership is unchanged and monitor 9 is sent `Leave(1, 5, [2])` -/
+example :
+    let g := Conc.run (g0 [.join 1 5 [1], .monitor 5 9] [.leave 1 5 [2]]) [.call 0, .call 0]
+    membersOf g.st (1, 5) = [1] ∧ membersOf (g0 [.join 1 5 [1], .monitor 5 9] [.leave 1 5 [2]]).st (1, 5) = [1] ∧
+    g.sent = [⟨9, false, 1, 5, [2]⟩] ∧ g.thr = [.done] := by decide
+
+/-- **Readers are threads: every region of a query reads the membership of ITS instant** (`Model/PgConcRead.lean`:
+the six queries run next to any `Pg.Conc` writers, lock region by lock region; `map.iter()` shard by shard with
+writers in between, shard contents and order chosen by the schedule). For every thread set, every set of
+readers and every schedule, with `M n` = the membership at the instant after `n` writer regions:
+(0) `M n` is the abstract relation evolved by the linearised operations of the first `n` writer regions, and the
+writers are not disturbed by the readers;
+for every reader that has returned (`vis` = the instants of its own regions, all within the run):
+(1) `get_members`, `get_local_members`, `which_scoped_groups` have ONE region: the answer is the projection of
+`M n` for the instant `n` of that region — linearizable;
+(2) `which_scopes_and_groups` / `which_groups` / `which_scopes`: a key (group, scope) is listed iff the group had
+members at the instant ITS shard was read — linearizable per key; the answer as a whole need not be the
+projection of any single instant (the `example` below: DashMap iteration is not a snapshot). -/
+theorem conc_readers_linearizable (ops : List Op) (calls : List Conc.Pc) (qs : List Conc.Query)
+    (rsched : List Conc.RTid) :
+    let rg := Conc.rrun (Conc.rstart (g0 ops calls) qs) rsched
+    let M := fun (n : Nat) (k : Key) (x : Nat) => x ∈ membersOf (Conc.stAtH (g0 ops calls) rg.hist n) k
+    (rg.hist = Conc.writersOf rsched ∧ rg.g = Conc.run (g0 ops calls) rg.hist ∧
+      ∀ n k x, M n k x ↔
+        Conc.absRun (fun k x => x ∈ membersOf (run init ops) k) (g0 ops calls) (rg.hist.take n) k x) ∧
+    ∀ q ans acc vis, Conc.RPc.ret q ans acc vis ∈ rg.rd →
+      (∀ p ∈ vis, p.2 ≤ rg.hist.length) ∧
+      (∀ s g, q = .getMembers s g → ∃ n, vis = [((s, g), n)] ∧ ∀ a, a ∈ ans ↔ M n (s, g) a) ∧
+      (∀ s g, q = .getLocalMembers s g → ∃ n, vis = [((s, g), n)] ∧
+        ∀ a, a ∈ ans ↔ M n (s, g) a ∧ a ∉ (Conc.stAtH (g0 ops calls) rg.hist n).remote) ∧
+      (∀ s, q = .whichScopedGroups s → ∃ n, vis = [((s, 0), n)] ∧ ∀ g, g ∈ ans ↔ ∃ a, M n (s, g) a) ∧
+      (q = .whichScopesAndGroups → ∀ k, k ∈ acc ↔ ∃ n, (k, n) ∈ vis ∧ ∃ a, M n k a) ∧
+      (q = .whichGroups → ∀ g, g ∈ ans ↔ ∃ s n, ((s, g), n) ∈ vis ∧ ∃ a, M n (s, g) a) ∧
+      (q = .whichScopes → ∀ s, s ∈ ans ↔ ∃ g n, ((s, g), n) ∈ vis ∧ ∃ a, M n (s, g) a) := by
+  intro rg M
+  have hinv : Conc.RInv (g0 ops calls) rg := Conc.rinv_run (Conc.rinv_start (g0 ops calls) qs) rsched
+  have hh : rg.hist = Conc.writersOf rsched := by
+    have := Conc.hist_run (Conc.rstart (g0 ops calls) qs) rsched
+    rw [show (Conc.rstart (g0 ops calls) qs).hist = [] from rfl, List.nil_append] at this
+    exact this
+  refine ⟨⟨hh, hinv.1, fun n k x => Conc.lin_run (g0 ops calls) (rg.hist.take n) k x⟩, ?_⟩
+  intro q ans acc vis hmem
+  have hok := hinv.2 _ hmem
+  have hproj : ∀ n s g, g ∈ whichScopedGroups (Conc.stAtH (g0 ops calls) rg.hist n) s ↔ ∃ a, M n (s, g) a :=
+    fun n s g => (conc_queries_are_projections ops calls (rg.hist.take n)).2.2.2.2.2 s g
+  have hvis : ∀ p ∈ vis, p.2 ≤ rg.hist.length := by
+    by_cases hq : Conc.isIter q = true
+    · exact (Conc.ret_iter_spec hok hq).1
+    · obtain ⟨n, hn, hv, _⟩ := Conc.ret_single_spec hok (by simpa using hq)
+      intro p hp; rw [hv] at hp
+      simp only [List.mem_singleton] at hp
+      rw [hp]; exact hn
+  refine ⟨hvis, ?_, ?_, ?_, ?_, ?_, ?_⟩
+  · rintro s g rfl
+    obtain ⟨n, _, hv, ha⟩ := Conc.ret_single_spec hok rfl
+    exact ⟨n, hv, fun a => by rw [ha]; exact Iff.rfl⟩
+  · rintro s g rfl
+    obtain ⟨n, _, hv, ha⟩ := Conc.ret_single_spec hok rfl
+    exact ⟨n, hv, fun a => by rw [ha]; exact getLocalMembers_spec _ s g a⟩
+  · rintro s rfl
+    obtain ⟨n, _, hv, ha⟩ := Conc.ret_single_spec hok rfl
+    exact ⟨n, hv, fun g => by rw [ha]; exact hproj n s g⟩
+  · rintro rfl
+    exact (Conc.ret_iter_spec hok rfl).2.1
+  · rintro rfl
+    obtain ⟨_, hacc, ha⟩ := Conc.ret_iter_spec hok rfl
+    intro g
+    rw [ha]
+    simp only [Conc.iterProj, List.mem_map]
+    constructor
+    · rintro ⟨⟨s, g'⟩, hk, rfl⟩
+      obtain ⟨n, hn, hm⟩ := (hacc _).mp hk
+      exact ⟨s, n, hn, hm⟩
+    · rintro ⟨s, n, hn, hm⟩
+      exact ⟨(s, g), (hacc _).mpr ⟨n, hn, hm⟩, rfl⟩
+  · rintro rfl
+    obtain ⟨_, hacc, ha⟩ := Conc.ret_iter_spec hok rfl
+    intro s
+    rw [ha]
+    simp only [Conc.iterProj, List.mem_map]
+    constructor
+    · rintro ⟨⟨s', g⟩, hk, rfl⟩
+      obtain ⟨n, hn, hm⟩ := (hacc _).mp hk
+      exact ⟨g, n, hn, hm⟩
+    · rintro ⟨g, n, hn, hm⟩
+      exact ⟨(s, g), (hacc _).mpr ⟨n, hn, hm⟩, rfl⟩
+
+/-- `map.iter()` is not a snapshot (non-vacuity of the reader model, and why (2) above is per key): group (1,5)
+has member 1; a `which_scopes_and_groups` reads the shard of (1,5), then a `leave_scoped(1,5,[1])` and a
+`join_scoped(1,6,[2])` run to their commits, then the reader reads the shard of (1,6) and returns
+`[(1,5), (1,6)]` — although at no instant of the run both groups had members; a `get_members(1,6)` started
+while the join holds the entry is blocked and then sees `[2]`. -/
+example :
+    let g := g0 [.join 1 5 [1]] [.leave 1 5 [1], .join 1 6 [2]]
+    let rs : List Conc.RTid := [.r 0 none, .r 0 (some [(1, 5)]), .w (.call 0), .w (.call 1), .w (.call 1), .w (.call 1),
+      .r 1 none, .w (.call 1), .r 0 (some [(1, 6), (1, 5)]), .r 0 none, .r 1 none]
+    let rg := Conc.rrun (Conc.rstart g [.whichScopesAndGroups, .getMembers 1 6]) rs
+    rg.rd = [.ret .whichScopesAndGroups [] [(1, 5), (1, 6)] [((1, 5), 0), ((1, 6), 5)],
+             .ret (.getMembers 1 6) [2] [] [((1, 6), 5)]] ∧
+    ((List.range 6).all fun n =>
+      (membersOf (Conc.stAtH g rg.hist n) (1, 5)).isEmpty || (membersOf (Conc.stAtH g rg.hist n) (1, 6)).isEmpty) = true := by
+  decide
+
 end C11
 
 #print axioms C11.ok_reachable
@@ -818,3 +980,7 @@ end C11
 #print axioms C11.conc_payload_sound
 #print axioms C11.conc_join_guard_vacuous
 #print axioms C11.conc_stale_origin
+#print axioms C11.conc_notifications_per_text
+#print axioms C11.conc_delivered_to_monitors_of_the_instant
+#print axioms C11.ineffective_leave_is_notified
+#print axioms C11.conc_readers_linearizable
